@@ -10,8 +10,11 @@ Decided (claimed in part):
     extended header always ends in a separator;
  R3 sanitiser-last: every header returned with a non-NULL path went through
     collapse_path(header->path), and nothing that can write the path runs after it.
-NOT decided - stated plainly: the in-place state machine inside collapse_path; a change
-confined to its body is not detected by this check.
+ R5 collapse_path conforms to the component transducer (E9 SCAN): every path through one
+    iteration of its loop is a copy / accept / drop / pop move, an accept only under facts that
+    exclude "", "." and ".." for the component just closed, a pop only to a component boundary.
+NOT decided: a sanitiser written over indices or with another algorithm is reported as not
+recognised (exit 1), not analysed.
 """
 from ..context import Context
 from ..report import Report
@@ -98,8 +101,11 @@ def run(tier, seed):
                  "NULL, a buffer whose sanitising loop (evaluated over all 256 byte values) leaves no '/', the tail after the last "
                  "'/', or is handed to split_header_filename on every path; the separator-normalisation loops visit every byte; "
                  "every header returned with a path passed through collapse_path(header->path) and nothing that can write the path "
-                 "or its bytes runs afterwards. Claimed in part: collapse_path's own in-place state machine quantifies over string "
-                 "contents and is NOT decided here - a change confined to its body is not detected.")
+                 "or its bytes runs afterwards; collapse_path itself is checked against the component transducer: every path through one "
+                 "iteration of its loop is a copy, accept, drop or pop move on (component start, write cursor), an accept only under "
+                 "branch facts that exclude the empty, '.' and '..' component, a pop only to the start of the string or to a position just "
+                 "after a '/', nothing else is stored into the string but the copied byte and the final NUL (E9 SCAN). Together these give "
+                 "the invariant '[start, component start) is a sequence of real names each followed by /' for every input string.")
     with Context(tier) as ctx:
         from .. import selfcheck
         selfcheck.run(ctx, rep, ['taint', 'facts'])
@@ -288,6 +294,19 @@ def run(tier, seed):
             # the header is returned by no other function of the library without passing here: lha_file_header_read is the only producer
             prod = {f.cname for f in mod.defined() for c in f.insts() if c.op == "call" and mod.callee_cname(c) in ("calloc", "malloc", "realloc") and
                     "LHAFileHeader" in (f.ret or "") }
+        rid = rep.rule("R5", "collapse_path conforms to the component transducer: per-iteration moves copy / accept / drop / pop, accept guarded against '', '.' and '..', pop lands on a component boundary", 10)
+        cp = rep.need(rid, mod.fn("collapse_path"), "function collapse_path")
+        if cp:
+            from ..scan import check_filter
+            ok, problems, stats = check_filter(cp, ctx.facts(cp))
+            rep.extra["collapse_path_moves"] = stats
+            for w_, text in problems:
+                rep.violation(rid, "collapse_path: %s" % text, w_, "the in-place filter can leave an empty, '.' or '..' component (or the analysis cannot show that it does not)",
+                              function="collapse_path", obj="move")
+            if ok:
+                for k in ("copy", "accept", "drop", "pop", "exit"):
+                    for _ in range(stats.get(k, 0)):
+                        rep.ok(rid, "collapse_path: %s path conforms" % k, None, "%s:%s" % (cp.file, cp.line))
         rid = rep.rule("R4", "lha_file_header_read is the only function that creates headers", 1)
         creators = set()
         for f in mod.defined():
